@@ -109,7 +109,7 @@ Tr_C07_deposit(A, B) ==
       \A o \in ObsNames :
          LET ob == A.obs[o]
          IN (ob.ast # NoneT /\ ob.status # "WAITING") =>
-              ob.data = OCfg(o).rate * MinI(OCfg(o).dur, (B.now - ob.ast) \div K)
+              ob.data = OCfg(o).rate * MinI(OCfg(o).dur, CeilDiv(B.now - ob.ast, K))
 Tr_C07_release(A, B) ==
     \A o \in B.buf.hotFin \ A.buf.hotFin :
         /\ A.obs[o].data = ObsVol(o)
